@@ -528,10 +528,10 @@ fn big_run_specs(seed: u64) -> Vec<(String, GraphSpec)> {
     let plain = |n: usize| -> Vec<TestFn> { (0..n).map(|id| TestFn { id, reads: vec![], writes: vec![] }).collect() };
     let k = |i: usize| if i % 3 == 0 { Kind::Contains } else { Kind::Logic };
     vec![
-        (format!("chain of {n}"), GraphSpec { fns: plain(n), edges: (0..n - 1).map(|i| (i, i + 1, k(i))).collect(), batches: vec![] }),
-        (format!("fan-out: one hub before {} functions", n - 1), GraphSpec { fns: plain(n), edges: (1..n).map(|i| (0, i, k(i))).collect(), batches: vec![] }),
-        (format!("fan-in: {} functions before one sink", n - 1), GraphSpec { fns: plain(n), edges: (0..n - 1).map(|i| (i, n - 1, k(i))).collect(), batches: vec![] }),
-        (format!("ternary tree of {n}"), GraphSpec { fns: plain(n), edges: (1..n).map(|i| ((i - 1) / 3, i, k(i))).collect(), batches: vec![] }),
+        (format!("chain of {n}"), GraphSpec { fns: plain(n), edges: (0..n - 1).map(|i| (i, i + 1, k(i))).collect(), batches: vec![], add_mode: 0 }),
+        (format!("fan-out: one hub before {} functions", n - 1), GraphSpec { fns: plain(n), edges: (1..n).map(|i| (0, i, k(i))).collect(), batches: vec![], add_mode: 0 }),
+        (format!("fan-in: {} functions before one sink", n - 1), GraphSpec { fns: plain(n), edges: (0..n - 1).map(|i| (i, n - 1, k(i))).collect(), batches: vec![], add_mode: 0 }),
+        (format!("ternary tree of {n}"), GraphSpec { fns: plain(n), edges: (1..n).map(|i| ((i - 1) / 3, i, k(i))).collect(), batches: vec![], add_mode: 0 }),
     ]
 }
 
@@ -626,7 +626,7 @@ pub fn drop_sweep(prop: &'static str) -> BigRuns {
                 } else {
                     (0..fan).map(|i| (fan, i, Kind::Logic)).chain([(fan + 1, fan, Kind::Contains)]).collect()
                 };
-                let spec = GraphSpec { fns, edges, batches: vec![] };
+                let spec = GraphSpec { fns, edges, batches: vec![], add_mode: 0 };
                 let g0 = crate::model::build_graph(&spec);
                 let facts = crate::model::GraphFacts::new(&spec, &g0);
                 let cfg = RunCfg {
@@ -716,7 +716,7 @@ pub fn limit_sweep(prop: &'static str) -> BigRuns {
                                         if rev { (b, a, kind) } else { (a, b, kind) }
                                     })
                                     .collect();
-                                let spec = GraphSpec { fns, edges, batches: vec![] };
+                                let spec = GraphSpec { fns, edges, batches: vec![], add_mode: 0 };
                                 let g0 = crate::model::build_graph(&spec);
                                 let facts = crate::model::GraphFacts::new(&spec, &g0);
                                 for limit in 2..=4usize {
